@@ -133,6 +133,21 @@ func main() {
 		runoneMain(os.Args[2:])
 	case "replaychild":
 		replaychildMain(os.Args[2:])
+	case "warmcold":
+		// development aid: warmcold <seed> <n>
+		var seed uint64
+		var n int64
+		fmt.Sscan(os.Args[2], &seed)
+		fmt.Sscan(os.Args[3], &n)
+		self, _ := os.Executable()
+		dir, _ := os.MkdirTemp("", "warmcold")
+		defer os.RemoveAll(dir)
+		f, k := warmColdSample(self, seed, n, dir)
+		fmt.Println("compared", k)
+		if f != nil {
+			fmt.Println(f.V.Class(), f.V.Detail)
+			fmt.Println(string(f.Case))
+		}
 	case "trace15":
 		trace15Main(os.Args[2:])
 	case "selftest":
